@@ -369,7 +369,8 @@ Section MapStep.
         destruct (push_front_el_shape _ _ _ _ _ E1 (raw_string_ad _ _ _ _ _ E0)) as [H1 H2].
         apply minv_mk; try assumption; [auto|]. destruct Hk'; [left|right]; auto.
       - (* raw block text *)
-        cinv E. cinv E. okinv E. apply minv_mk; try assumption.
+        destruct (slice src _ _) as [txt|]; [|discriminate].
+        cinv E. okinv E. apply minv_mk; try assumption.
         + apply sinv_push_fresh; [|exact Hs1|exact (Hawait Hok)].
           constructor; [eapply raw_string_ad; eassumption|constructor].
         + left. reflexivity.
@@ -396,9 +397,15 @@ Section MapStep.
           apply minv_mk; try assumption; [right; exact Hb|].
           constructor; [apply ad_mk_helper|exact Hhs].
       - (* invert *)
-        cinv E. rename a into it0. cinv E. destruct a as [[e ts1] it1]. cinv E. destruct a as [trim ts2].
-        pose proof (fsame_trans _ _ _ (tag_prologue_fsame _ _ _ _ _ _ _ E1)
-                      (process_standalone_statement_fsame _ _ _ _ _ _ E2)) as Hsame.
+        match type of E with (let '(_, _) := ?x in _) = _ => destruct x as [chain_pre ita] end.
+        cinv E. rename a into it0. cinv E. destruct a as [e0 it1].
+        set (e := es_or_pre e0 chain_pre) in *. clearbody e.
+        cinv E. rename a into ts1. cinv E. destruct a as [trim ts2].
+        assert (Hsame1 : fsame (c_ts c1) ts1).
+        { destruct (es_pre e); [eapply remove_previous_whitespace_fsame; eassumption|].
+          okinv E2. apply fsame_refl. }
+        pose proof (fsame_trans _ _ _ Hsame1
+                      (process_standalone_statement_fsame _ _ _ _ _ _ E3)) as Hsame.
         pose proof (fsame_sinv _ _ Hsame Hs1) as Hs2.
         pose proof (fsame_fdef _ _ _ Hsame (Hready Hok)) as Hk2.
         destruct ts2 as [|t ts3]; [discriminate|].
@@ -409,7 +416,7 @@ Section MapStep.
         apply minv_mk; try assumption; [right; exact Hk3|].
         constructor; [|assumption].
         assert (Hh2 : ad_helper h2).
-        { eapply ad_set_chain_template; [exact E3| |exact Hdeep].
+        { eapply ad_set_chain_template; [exact E4| |exact Hdeep].
           destruct chain; [apply ad_h_set_chain|]; assumption. }
         destruct chain; [|exact Hh2].
         apply ad_insert_inverse_node; [exact Hh2|apply ad_mk_helper].
@@ -596,8 +603,9 @@ Section MapValue.
       destruct (push_front_el_eq _ _ _ _ _ E1) as (t & r & ->).
       exists t, r, s. reflexivity.
     - (* raw block text *)
-      cinv E. cinv E. okinv E. okinv H.
-      destruct (raw_string_raw _ _ _ _ _ E1) as [s ->].
+      destruct (slice src _ _) as [txt|]; [|discriminate].
+      cinv E. okinv E. okinv H.
+      destruct (raw_string_raw _ _ _ _ _ E0) as [s ->].
       exists (c_ts c1), s. reflexivity.
     - (* block start *)
       cinv E. destruct a as [[e ts1] it1]. cinv E. destruct a as [trim ts2].
